@@ -73,7 +73,7 @@ def selftest(pid, only=None, verbose=True):
     import mutants
     # the mutants of this property, plus (thorough tier of a single property) every behaviour-preserving control, judged by
     # this property's rules only
-    ms = [m for m in mutants.MUTANTS if (m["prop"] == pid or (m.get("control") and pid != "ALL" and only is None)) and (only is None or m["id"] == only)]
+    ms = [m for m in mutants.MUTANTS if (m["prop"] == pid or (m.get("control") and m["prop"] == "ALL" and pid != "ALL" and only is None)) and (only is None or m["id"] == only)]
     failures = []
     results = []
     for m in ms:
